@@ -161,7 +161,7 @@ def gate_bound(c):
 
 def cases(run: Run):
     rng = run.rng
-    out = list(corpus(PID))
+    out = [dec(c) for c in corpus(PID)]  # stored as JSON: rationals as strings
     for _ in range(run.n(250, 3000)):
         kind = rng.choice(["smm", "smm", "gpb1"])
         n = rng.choice([2, 2, 3, 3, 4, 5, 8, 12, 30])
